@@ -48,7 +48,7 @@ ASSUMPTIONS = [
     'to the model is walked from the instance just before the calls; Job.command.arguments is read without the shell '
     'expansion of Command.commandLine',
     'in the 24-producer instances only ref / output / copy references are generated; copy references are declared but never '
-    'written in the arguments; no reference is declared twice',
+    'written in the arguments; a reference is declared once, or - a producer of the consumer\'s own stage, about 8% of the cases - twice (in both spellings, now and then twice in one), never more',
     'DoWhile loops (harness/c10_loops.py): one document imported in stage 1 (looped components step, mon - repeating -, check, '
     'and late in the second stage of the document), advanced 2-6 iterations with the real '
     'WorkflowGraph.instantiate_dowhile_next_iteration; consumers outside the loop (stage 1 next to it, stage 2 after it) '
@@ -63,6 +63,7 @@ ASSUMPTIONS = [
     'instance paths are rewritten to /I before comparing (they contain no colon, so no spelling)',
 ]
 HEADER = 'Require Import V.Lib.PyStr V.Args.Model.\nOpen Scope string_scope.'
+HEADER_R = 'Require Import V.Lib.PyStr V.Args.Model V.Args.Redeclared.\nOpen Scope string_scope.'
 HEADER_V = 'Require Import V.Lib.PyStr V.Args.Model V.Args.ValueModel.\nOpen Scope string_scope.'
 # file parts of the value correspondence (as written: nothing is normalised by the code)
 VFILES = [None, 'o.txt', 'p.txt', 'A', 'missing.txt', 'sub', 'sub/', 'sub/./o.txt', 'sub//o.txt', 'o.txt/', 'sub/.', './o.txt',
@@ -194,14 +195,35 @@ def oracle(case):
     return ''.join(out)
 
 
+def same_ref(a, b):
+    """two declarations (dicts) of one reference: the same producer / file part / method, in whatever spelling"""
+    return a is not None and b is not None and r_abs(a) == r_abs(b)
+
+
+def times_declared(declared, r):
+    return sum(1 for q in declared if same_ref(q, r))
+
+
 def expected_unused(case):
-    used = []
+    """a declared substitutable reference none of whose spellings is a token.  A reference declared TWICE (a producer of
+    the consumer's own stage in both spellings, Sim:ref and stage1.Sim:ref - what a command line that writes both
+    spellings has to declare): its k-th declaration is used by the k-th distinct spelling written, so one of the two
+    declarations is reported when only one spelling is written (for a reference declared once: the plain rule)."""
+    written = {}
     for k, s in case['pieces']:
         if k == 'T':
             r = denotation(case['stage'], case['declared'], s)
             if r is not None:
-                used.append(r_abs(r))
-    return [r_abs(r) for r in processing_order(case['declared']) if r['method'] in SUBST and r_abs(r) not in used]
+                written.setdefault(r_abs(r), set()).add(s)
+    out, nth = [], {}
+    for r in processing_order(case['declared']):
+        if r['method'] not in SUBST:
+            continue
+        a = r_abs(r)
+        nth[a] = nth.get(a, 0) + 1
+        if nth[a] > len(written.get(a, ())):
+            out.append(a)
+    return out
 
 
 # ------------------------------------------------------------------ known-finding classes (on the input)
@@ -217,14 +239,15 @@ def classes_of(case, value=None):
     for r in sub:
         for s in set([r_abs(r), r_rel(r)]):
             for t in toks:
-                if s in t and denotation(case['stage'], dec, t) is not r:
+                if s in t and not same_ref(denotation(case['stage'], dec, t), r):
                     hit = True
     if hit:
         cls.append('spelling_matches_inside_other_reference_token')
-    # F10b: one reference written in both spellings
+    # F10b: one reference written in both spellings - and declared ONCE (declared in both spellings it is visited twice:
+    # the first visit replaces the qualified spelling, the second the relative one; that is exact and no finding)
     for r in sub:
         if r_abs(r) != r_rel(r) and r_abs(r) in toks and r_rel(r) in toks \
-                and denotation(case['stage'], dec, r_rel(r)) is r:
+                and same_ref(denotation(case['stage'], dec, r_rel(r)), r) and times_declared(dec, r) == 1:
             cls.append('both_spellings_of_one_reference_used')
             break
     # F10c: contents substituted for an output reference contain a declared spelling
@@ -401,6 +424,18 @@ def gen_case(rng):
         seen.add(key)
         declared.append(r)
     sub = [r for r in declared if r['method'] in SUBST]
+    # a producer of the consumer's own stage declared TWICE - in both spellings (what a command line that writes both
+    # spellings declares: every reference string of the arguments is checked against the declarations), now and then
+    # twice in one spelling: dataReferences lists it twice, resolveArguments visits it twice
+    twice = []
+    own = [r for r in sub if r['stage'] is not None and r['stage'] == stage]
+    if own and len(declared) <= 3 and rng.random() < 0.14:
+        r = rng.choice(own)
+        d = dict(r)
+        if rng.random() < 0.85:
+            d['declared_as'] = r_abs(r) if r['declared_as'] == r_rel(r) else r_rel(r)
+        declared.insert(rng.randrange(len(declared) + 1), d)
+        twice.append(r_abs(r))
     for _ in range(30):
         uses = []
         for r in sub:
@@ -409,6 +444,10 @@ def gen_case(rng):
             n = rng.choice([1, 1, 1, 2])
             can_rel = r['stage'] is not None and r['stage'] == stage
             style = 'rel' if (can_rel and rng.random() < 0.55) else 'abs'
+            if r_abs(r) in twice and rng.random() < 0.8:
+                # declared in both spellings, written in both (once or twice each, any order)
+                uses.extend([r_abs(r), r_rel(r)] + [rng.choice([r_abs(r), r_rel(r)]) for _j in range(n - 1)])
+                continue
             for _j in range(n):
                 st = style
                 if can_rel and rng.random() < 0.04:
@@ -468,6 +507,26 @@ def corpus():
     # a repeating producer after its 11th execution (streams 6..10) next to one after its 103rd (98..102)
     case(1, [mk_ref(0, 'AB', None, 'output', 1), mk_ref(1, 'BAB', None, 'output', 1, relative=True)],
          [('L', '--last '), ('T', 'stage0.AB:output'), ('L', ' --mine '), ('T', 'BAB:output')])
+    # a producer of the consumer's own stage declared in BOTH spellings and written in both (two visits: the qualified
+    # spelling, then the relative one), a directory reference with text after it, the contents of one of its files; next
+    # to the same name in another stage; declared twice in ONE spelling; declared twice and written in one spelling only
+    # (the second visit finds nothing: one declaration is reported unused)
+    A1q = mk_ref(1, 'A', None, 'ref', 1, relative=False)
+    n1r = mk_ref(1, 'B', 'o.txt', 'output', 1, relative=True)
+    n1q = mk_ref(1, 'B', 'o.txt', 'output', 1, relative=False)
+    case(1, [A1, A1q], [('T', 'stage1.A:ref'), ('L', ' '), ('T', 'A:ref')])
+    case(1, [A1, A1q, A0], [('L', '--in '), ('T', 'A:ref'), ('L', '/in.dat --check '), ('T', 'stage1.A:ref'),
+                            ('L', '/in.dat --gen '), ('T', 'stage0.A:ref'), ('L', ' A ref: stage1. end')])
+    case(1, [n1r, A1q, n1q, A1], [('L', '--n='), ('T', 'B/o.txt:output'), ('L', ','), ('T', 'stage1.B/o.txt:output'),
+                                  ('L', ' -d '), ('T', 'stage1.A:ref'), ('L', ' '), ('T', 'A:ref'), ('L', ' '),
+                                  ('T', 'B/o.txt:output')])
+    case(1, [A1, dict(A1)], [('T', 'A:ref'), ('L', ' -o '), ('T', 'stage1.A:ref'), ('L', '/f')])
+    case(1, [A1, A1q, B1], [('T', 'A:ref'), ('L', ' '), ('T', 'B:ref')])
+    case(1, [A1q, A1, B1], [('T', 'stage1.A:ref'), ('L', ' '), ('T', 'stage1.B:ref')])
+    R2r = mk_ref(2, 'BA', 'o.txt', 'ref', 2, relative=True)
+    R2q = mk_ref(2, 'BA', 'o.txt', 'ref', 2, relative=False)
+    case(2, [R2q, mk_ref(1, 'BA', 'o.txt', 'ref', 2), R2r],
+         [('L', 'cmp '), ('T', 'stage2.BA/o.txt:ref'), ('L', ' '), ('T', 'BA/o.txt:ref'), ('L', ' '), ('T', 'stage1.BA/o.txt:ref')])
     # the non-vacuity example of Property.v
     o = mk_ref(0, 'B', 'o.txt', 'output', 1)
     cp = mk_ref(None, 'x.txt', None, 'copy', 1)
@@ -513,6 +572,34 @@ def stream_cases():
                 out.append({'stage': stage, 'declared': [o, d, plain],
                             'pieces': [['L', '--last '], ['T', t], ['L', ' --dir '], ['T', r_abs(d)], ['L', '/streams x='],
                                        ['T', r_rel(plain)], ['L', ' again='], ['T', t]]})
+    return out
+
+
+def redeclared_cases():
+    """systematic: every producer of the consumer's own stage (8 in stage 1, 3 in stage 2) x what is referenced (the
+    directory, a file in it, the contents of a file, its stdout) declared in BOTH spellings next to a reference to the
+    producer of the same name in an earlier stage, both spellings written - in both token orders, one of them twice;
+    every declaration order is added by the caller.  Each spelling must become the reference's value: the reference is
+    visited twice, the first visit replaces the qualified spelling, the second the relative one."""
+    out = []
+    for stage, names in ((1, NAMES), (2, ['A', 'BA', 'BB'])):
+        for i, n in enumerate(names):
+            kinds = [(None, 'ref'), ('o.txt', 'ref'), ('o.txt', 'output'), ('e.txt', 'output')]
+            if n in STDOUT_OF or (stage, n) in REPEATING:
+                kinds.append((None, 'output'))
+            for j, (fl, m) in enumerate(kinds):
+                q = mk_ref(stage, n, fl, m, stage, relative=False)
+                r = mk_ref(stage, n, fl, m, stage, relative=True)
+                # next to it: a producer of an earlier stage whose name shares no substring with this one (most cases: outside
+                # the classes of the open findings) or, one case in three, the producer of the same name one stage earlier
+                apart = [x for x in NAMES if x not in n and n not in x]
+                on = n if (i + j) % 3 == 0 else apart[(i + j) % len(apart)]
+                other = mk_ref(stage - 1, on, fl if m == 'ref' else None, 'ref', stage)
+                a, b = (r_abs(q), r_rel(q)) if (i + j) % 2 == 0 else (r_rel(q), r_abs(q))
+                out.append({'stage': stage, 'declared': [r, q, other],
+                            'pieces': [['L', 'run --in '], ['T', a], ['L', '/in.dat --check=' if m == 'ref' else ' --check='],
+                                       ['T', b], ['L', ','], ['T', r_abs(other)], ['L', ' %s ref: stage%d. ' % (n, stage)],
+                                       ['T', a]]})
     return out
 
 
@@ -820,6 +907,15 @@ def live_corpus():
                         [['execute', 1, 'B', 'streams', 3, 'c'], ['write', 1, 'ABA', 'streams/500.stderr', 'w']],
                         [['execute', 1, 'B', 'streams', 1, 'd'], ['execute', 1, 'ABA', 'streams', 2, 'd']],
                         [['execute', 2, 'BB', 'streams', 12, 'e']], []]})
+    # a file of a producer of the consumer's own stage, declared and written in both spellings (two visits at every
+    # resolution, through every entry point) while the file is rewritten / deleted / written back
+    tr = mk_ref(1, 'AB', 'o.txt', 'output', 1, relative=True)
+    tq = mk_ref(1, 'AB', 'o.txt', 'output', 1, relative=False)
+    cs.append({'stage': 1, 'declared': [tr, A0, tq],
+               'pieces': [['L', '--n='], ['T', 'AB/o.txt:output'], ['L', ','], ['T', 'stage1.AB/o.txt:output'], ['L', ' --gen '],
+                          ['T', 'stage0.A:ref'], ['L', ' AB o.txt: stage1. '], ['T', 'AB/o.txt:output']],
+               'live': [[], [['write', 1, 'AB', 'o.txt', '41\n']], [['delete', 1, 'AB', 'o.txt']],
+                        [['write', 1, 'AB', 'o.txt', '\\1 & 7\n\n']], []]})
     m4 = mk_ref(0, 'BA', None, 'output', 1)
     m5 = mk_ref(0, 'AB', None, 'output', 1)
     cs.append({'stage': 1, 'declared': [m4, m5, mk_ref(0, 'BA', None, 'ref', 1)],
@@ -1050,20 +1146,22 @@ def explore(ctx, cases, batch=240):
     tl = [t[0] for t in terms]
     t1 = time.time()
     chunk = max(60, min(300, -(-len(tl) // common.NPROC)))
-    bad = ctx.model_mismatches(HEADER, tl, 'check_case', chunk=chunk)
+    bad = ctx.model_mismatches(HEADER_R, tl, 'check_case_r', chunk=chunk)
     t2 = time.time()
     for k, i in enumerate(bad):
         _, case, obs = terms[i]
         m = ''
         if k < 3:
             c = terms[i][0]
-            m = ctx.model_eval(HEADER, 'let c := %s in (run (fst (fst c)) (flatten (snd (fst c))), '
-                                       'separatedb (fst (fst c)) (snd (fst c)), spec (fst (fst c)) (snd (fst c)))' % c)
+            m = ctx.model_eval(HEADER_R, 'let c := %s in (run (fst (fst c)) (flatten (snd (fst c))), '
+                                         'separatedb (fst (fst c)) (snd (fst c)), redeclaredb (fst (fst c)) (snd (fst c)), '
+                                         'spec (fst (fst c)) (snd (fst c)))' % c)
         ctx.disagree(case, obs, m, 'C10 resolveArguments (resolved string, unused list, unresolved flag) vs '
-                                   'Args.Model.run; and = spec where separatedb holds')
+                                   'Args.Model.run (every declaration visited, duplicates included); and = spec where '
+                                   'separatedb or redeclaredb holds')
     # which cases lie inside the hypotheses of C10_exact / C10_order_independent
     n0 = ctx.model_cases
-    outside = set(ctx.model_mismatches(HEADER, tl, 'in_scope', chunk=chunk, name='scope'))
+    outside = set(ctx.model_mismatches(HEADER_R, tl, 'in_scope_r', chunk=chunk, name='scope'))
     ctx.model_cases = n0
     ctx.extra['phase_s'] = {'implementation': round(t1 - t0, 1), 'model_check_case': round(t2 - t1, 1),
                             'model_in_scope': round(time.time() - t2, 1)}
@@ -1072,7 +1170,7 @@ def explore(ctx, cases, batch=240):
         ins = i not in outside
         ctx.count('inside_theorem_hypotheses' if ins else 'outside_theorem_hypotheses')
         if ins and id(case) in failing:
-            ctx.disagree(case, obs, 'separatedb && unambiguousb = true', 'C10 harness oracle vs Args.Model.spec '
+            ctx.disagree(case, obs, '(separatedb || redeclaredb) && unambiguousb = true', 'C10 harness oracle vs Args.Model.spec '
                          '(a case inside the theorem hypotheses fails the Python predicate)')
         if ins and classes_of(case):
             ctx.count('inside_hypotheses_but_in_a_finding_class')
@@ -1094,6 +1192,11 @@ def judge(ctx, case, obs):
         ctx.count('reads_stdout_of_a_repeating_producer')
     if not cls:
         ctx.count('outside_all_finding_classes')
+    if any(times_declared(dec, r) > 1 for r in dec):
+        ctx.count('a_reference_declared_twice')
+        tk = [t for k, t in case['pieces'] if k == 'T']
+        if any(times_declared(dec, r) > 1 and r_abs(r) in tk and r_rel(r) in tk for r in dec):
+            ctx.count('a_reference_declared_and_written_in_both_spellings')
     # (Python mirror of the extra hypotheses of C10_unused / C10_unresolved; the Coq checkers decide)
     subs = [r for r in dec if r['method'] in SUBST]
     if all(sum(1 for r in subs if t in (r_abs(r), r_rel(r))) <= 1 for k, t in case['pieces'] if k == 'T'):
@@ -1194,6 +1297,10 @@ def run(ctx):
     sc = stream_cases()
     ctx.count('repeating_producer_stream_cases', len(sc))
     for b in sc:
+        cases.extend(with_orders(b))
+    rc = redeclared_cases()
+    ctx.count('redeclared_in_both_spellings_cases', len(rc))
+    for b in rc:
         cases.extend(with_orders(b))
     ctx.exhaustive = False
     explore(ctx, cases)
